@@ -109,6 +109,9 @@ int main()
       for (int i = 0; i < n; ++i) {ac(i, i) = a[2 + m * n + i];}
       ls.setPreconditionner(ac);
       ls.estimateUsingCholeskyDecomposition();
+      // the covariance is requested TWICE (a priori variance first, then the case's): the second answer is the one compared —
+      // asking must not change what the solver holds
+      (void)ls.computeEstimateCovariance(0.5);
       putm(ls.computeEstimateCovariance(a[2 + m * n + n]));
     } else if (t[0] == "lsg" && a.size() >= 2) {
       // as "ls" with a full (generally non-symmetric) preconditioner matrix Ac, row-major
@@ -130,6 +133,7 @@ int main()
       for (int i = 0; i < n * n; ++i) {ac(i / n, i % n) = a[2 + m * n + i];}
       ls.setPreconditionner(ac);
       ls.estimateUsingCholeskyDecomposition();
+      (void)ls.computeEstimateCovariance(0.5);
       putm(ls.computeEstimateCovariance(a[2 + m * n + n * n]));
     } else {
       g_out = "?";
